@@ -5405,14 +5405,12 @@ class CiscoRange(UserList):
     def as_list(self, result_type="auto"):
         """Return a list of sorted components; an empty string is automatically rejected.  This method is tricky to test due to the requirement for the `.sort_list` attribute on all elements; avoid using the ordered nature of `as_list` and use `as_set`."""
         # WAS DEEPCOPY
-        yy_list = copy.deepcopy(self.data)
-        for ii in self.data:
+        yy_list = []
+        for ii in copy.deepcopy(self.data):
             if isinstance(ii, str) and ii == "":
                 # Reject an empty string...
                 continue
-            if getattr(ii, "sort_list", None) is not None:
-                # Require the .sort_list attribute...
-                yy_list.append(ii)
+            yy_list.append(ii)
 
         self.data = yy_list
         try:
